@@ -151,6 +151,38 @@ func (c *FnCtx) oblige(st *State, kind string, site ast.Node, sub, detail string
 	if isLit(goal, "true") {
 		return
 	}
+	// an equivalence (possibly under universal quantifiers) is proved as two implications: the two directions need
+	// different instantiations and solvers are far more robust on them separately
+	if a, b, ok := splitIff(goal); ok {
+		c.oblige1(st, kind, site, sub, detail+"   [direction ==>]", a)
+		c.oblige1(st, kind, site, sub, detail+"   [direction <==]", b)
+		return
+	}
+	c.oblige1(st, kind, site, sub, detail, goal)
+}
+
+// splitIff: forall xs :: (A = B)  ~>  forall xs :: A => B ,  forall xs :: B => A   (Bool-sorted A, B that are not literals)
+func splitIff(g *Term) (*Term, *Term, bool) {
+	if g.Op == "forall" && len(g.Args) == 1 {
+		a, b, ok := splitIff(g.Args[0])
+		if !ok {
+			return nil, nil, false
+		}
+		ga, gb := *g, *g
+		ga.Args = []*Term{a}
+		gb.Args = []*Term{b}
+		return &ga, &gb, true
+	}
+	if g.Op == "=" && len(g.Args) == 2 && g.Args[0].Sort == SBool && len(g.Args[0].Args) > 0 && len(g.Args[1].Args) > 0 {
+		return mkImplies(g.Args[0], g.Args[1]), mkImplies(g.Args[1], g.Args[0]), true
+	}
+	return nil, nil, false
+}
+
+func (c *FnCtx) oblige1(st *State, kind string, site ast.Node, sub, detail string, goal *Term) {
+	if isLit(goal, "true") {
+		return
+	}
 	var pos token.Pos
 	if site != nil {
 		pos = site.Pos()
@@ -232,6 +264,9 @@ func (c *FnCtx) render(o *Obligation) string {
 		body.WriteString("(assert (not " + o.Goal.String() + "))\n")
 	}
 	sb.WriteString(c.smt.preamble(body.String()))
+	for _, n := range c.smt.lastLib {
+		c.trustedUsed["axiom "+n] = true
+	}
 	sb.WriteString(body.String())
 	sb.WriteString("(check-sat)\n")
 	return sb.String()
